@@ -206,6 +206,10 @@ RetoggleEff(c, d) ==
   /\ UNCHANGED <<h, seq, cseq, commits, receipts, acks, out, bind, ubal, wbal, rbal, held, status, marks, snaps, sent, rot, badrel>>
 Retoggle(c, d) == RetoggleEff(c, d) /\ last' = [act |-> "Retoggle", res |-> "ok", chain |-> c, counter |-> d]
 
+(* The user of c calls a contract of its own that emits a log with the topic and data of the packet contract's   *)
+(* PacketSent event (a transfer of a to chain d under the next sequence): not the packet contract, so nothing happens. *)
+SendFake(c, d, a) == UNCHANGED stateVars /\ last' = [act |-> "SendFake", res |-> "ok", chain |-> c, dst |-> d, amt |-> a]
+
 (* Governance on chain c creates a client for a further chain (one that takes no part in these behaviours), whose   *)
 (* name is chosen to be a proper prefix of the name of c's counterparty d, or - nm = "ext" - to extend it:         *)
 (* store paths are built from chain names, and nothing recorded under d's name may be touched.  No variable changes. *)
@@ -347,6 +351,7 @@ Next ==
   \/ \E c \in Chains : \E d \in Others(c), k \in 0..MaxH, s \in Signers : UpdateClient(c, d, k, s)
   \/ \E c \in Chains : \E d \in Others(c) : Retoggle(c, d)
   \/ \E c \in Chains : \E d \in Others(c), nm \in {"prefix", "ext"} : NewClient(c, d, nm)
+  \/ \E c \in Chains : \E d \in Others(c), a \in Amts : SendFake(c, d, a)
   \/ \E c \in Chains : \E d \in Others(c) : WithRotate /\ Rotate(c, d)
   \/ \E p \in sent, alt \in Alts, k \in 0..MaxH, pf \in Proofs, s \in Signers : Recv(p.dst, p, alt, k, pf, s)
   \/ \E p \in sent, alt \in Alts, aalt \in AckAlts, k \in 0..MaxH, pf \in Proofs, s \in Signers :
